@@ -51,6 +51,8 @@ type Options struct {
 	// PromHost: host:port of this sidecar's Prometheus (several sidecars in one world need
 	// different ones); "" = 127.0.0.1:9090, the command's default
 	PromHost string
+	// SAPath: --inject.kubernetes-sa-path of this process ("" = the command's default: none)
+	SAPath string
 }
 
 // Sidecar is one running sidecar instance ("process"): the real `kvass sidecar` command
@@ -210,7 +212,7 @@ func Start(opt Options) *Sidecar {
 		"--web.api-addr=:8080",
 		"--prometheus.url=http://" + promHost,
 		"--inject.proxy=" + ProxyURL,
-		"--inject.kubernetes-sa-path=",
+		"--inject.kubernetes-sa-path=" + opt.SAPath,
 		"--shard.fetch-head-series=true",
 		"--scrape.disable-keep-alive=false",
 		fmt.Sprintf("--shard.self-monitor=%v", opt.ShardMonitor),
